@@ -1167,6 +1167,20 @@ func (iv *Inv) tryDischarge(s invSite) (bool, string) {
 		if MustPass(fn, nonZeroEdges(fn, d0), s.instr.Block()) {
 			return true, "g1: dominated by a non-zero / positive test of the divisor"
 		}
+		// the divisor is a field of a row of a package-level table of constants: every row's value is non-zero
+		if g, f, _, ok := tableFieldOf(d0); ok {
+			if rows, n, okT := constTable(iv.w, g); okT {
+				all := int64(len(rows)) == n
+				for _, row := range rows {
+					if c := row[f]; c == nil || c.Value == nil || constant.Sign(constant.ToInt(c.Value)) == 0 {
+						all = false
+					}
+				}
+				if all {
+					return true, fmt.Sprintf("g3: divisor is a field of the constant table %s, non-zero in each of its %d rows", g.Name(), n)
+				}
+			}
+		}
 		// the divisor is a copy of another value that is tested (e.g. epoch := int64(m.StepDuration))
 		if T, f, ok := fieldOfValue(d0); ok {
 			if ok2, how := iv.fieldValidated(T, f, reqPositive); ok2 {
@@ -2025,6 +2039,20 @@ func (iv *Inv) nonNegOK(fn *ssa.Function, at ssa.Instruction, v ssa.Value) (bool
 					break
 				}
 				ok, how := iv.nonNegOK(cs.Caller, cs.Instr, cs.Common().Args[idx])
+				if !ok {
+					// the argument has a vetted semantic signature (the vetting argument is about the value, not about the
+					// function in which the coin is built)
+					for l := 0; l <= 2 && !ok; l++ {
+						sk := "newcoin NewCoin | " + semSig(iv.w, cs.Caller, l, cs.Common().Args[idx])
+						if os.Getenv("C4E_DEBUG") != "" {
+							fmt.Printf("SEM-AT-CALLER\tnonneg\t%q\n", sk)
+						}
+						if reason, isVetted := vettedSemantic[sk]; isVetted {
+							iv.usedSem[sk] = true
+							ok, how = true, "vetted ("+sk+"): "+reason
+						}
+					}
+				}
 				if !ok {
 					all = false
 					break
